@@ -100,6 +100,9 @@ func main() {
 			"JoinCC": func(c chan (<-chan int)) <-chan int { return a.JoinCC(c) }, "JoinCCb": b.JoinCCb},
 		JoinSC: map[string]func([]chan int) <-chan int{
 			"JoinSC": func(in []chan int) <-chan int {
+				if in == nil {
+					return a.JoinSC(nil) // keep a nil slice nil
+				}
 				r := make([]<-chan int, len(in))
 				for i, c := range in {
 					r[i] = c
